@@ -614,6 +614,14 @@ def t6(rep, w):
                             # (T8 holds element-wise reads of the source to explicit bounds tests)
                             r.note('%s advances Scanner.%s by a counted number of bytes (byte-level scan: not judged by T6)' % (f.path, d['p'][-1]['n']))
                             continue
+                    elif rr.get('rv') == 'bin' and rr['op'].startswith('Add'):
+                        # `current += n` without the overflow check of checked builds: position + a counted number of bytes
+                        oka, _ = safe_identity(f, org, rr['a'])
+                        okb, _ = safe_identity(f, org, rr['b'])
+                        if (oka and byte_count_advance(f, org, rr['b'], allow_plain=True)) or (okb and byte_count_advance(f, org, rr['a'], allow_plain=True)):
+                            r.note('%s advances Scanner.%s by a counted number of bytes (byte-level scan: not judged by T6)' % (f.path, d['p'][-1]['n']))
+                            continue
+                        ok, why = False, 'bin'
                     else:
                         ok, why = False, rr.get('rv')
                     n += 1
@@ -690,7 +698,7 @@ def t6(rep, w):
         raise Broken('C03', 'floor', 'T6: get_next_char_boundary has %d result assignments' % rets)
 
 
-def byte_count_advance(f, org, o):
+def byte_count_advance(f, org, o, allow_plain=False):
     pl = op_place(o)
     if pl is None:
         return False
